@@ -109,7 +109,7 @@ class Gen(object):
             self.default = rng.choice(["domain", "never"])
             self.rules = []
         else:
-            self.default = wchoice(rng, {"domain": 5, "subdomain": 1.5, "path1": 1.5, "path2": 0.7, "never": 1.2})
+            self.default = wchoice(rng, {"domain": 5, "subdomain": 1.5, "path1": 1.5, "path2": 0.7, "never": 1.0, "empty": 0.4})
             self.rules = []
             for _ in range(rng.choice([0, 0, 1, 1, 2, 3])):
                 a = self.anchor()
@@ -120,7 +120,7 @@ class Gen(object):
         # many webentities: the id counter crosses byte boundaries of its header field
         self.wide = prop in ("C01", "C02", "C04", "C05", "C07", "C08", "C09", "C13", "C19", "C20") and rng.random() < (0.012 if tier == "quick" else 0.02)
         self.large = self.wide and prop in ("C01", "C04", "C05", "C07", "C08", "C13") and rng.random() < 0.25
-        self.many_ids = (prop == "C12" and rng.random() < (0.02 if tier == "quick" else 0.04)) or (prop == "C11" and rng.random() < (0.006 if tier == "quick" else 0.012))
+        self.many_ids = (prop in ("C07", "C08") and rng.random() < (0.015 if tier == "quick" else 0.03)) or (prop == "C12" and rng.random() < (0.02 if tier == "quick" else 0.04)) or (prop == "C11" and rng.random() < (0.006 if tier == "quick" else 0.012))
         self.bulk = prop in ("C03", "C07", "C08", "C10", "C15", "C18", "C20") and rng.random() < ((0.01 if tier == "quick" else 0.03) if prop != "C18" else 0.06)
         self.created_prefixes = []  # prefixes named in webentity ops so far (for refs)
 
@@ -130,7 +130,8 @@ class Gen(object):
         st = stems(base)
         hosts = [i for i, s in enumerate(st) if s.startswith(b"h:")]
         if not hosts:
-            return None
+            # no host stems (any-byte profile): any stem-prefix can anchor a rule
+            return b"".join(st[: self.rng.randint(1, len(st))]) if st else None
         cut = self.rng.choice(hosts + [hosts[-1]] + ([hosts[-1] + 1] if len(st) > hosts[-1] + 1 else []))
         return b"".join(st[: cut + 1])
 
@@ -197,12 +198,23 @@ class Gen(object):
             return {"op": k, "links": links, "repeat": r.choice([2100, 4097, 5001]) if self.prop not in ("C15", "C18") else (r.choice([260, 300]) if self.prop == "C18" else r.choice([300, 600, 2100]))}
         if k == "add_links" and r.random() < 0.03:
             return {"op": k, "links": []}
+        if k == "add_links" and r.random() < 0.03:
+            # one page named as a source under two spellings (bytes after the last separator are
+            # ignored by the index) and as a target, in one request
+            s, t1, t2, u = self.lru(), self.lru(), self.lru(), self.lru()
+            links = [[enc(s), enc(t1)], [enc(s + r.choice([b"f:top", b"x"])), enc(t2)], [enc(u), enc(s)]]
+            r.shuffle(links)
+            return {"op": k, "links": links}
         if k == "add_links":
             n = r.choice([1, 1, 2, 3, 5, 8])
             links = []
             for _ in range(n):
                 s = self.lru()
                 t = s if r.random() < 0.1 else self.lru()
+                if r.random() < 0.03:
+                    s = s + r.choice([b"f:top", b"x", b"q:a=1"])  # bytes after the last separator: ignored by the index
+                if r.random() < 0.02:
+                    t = t + r.choice([b"f:top", b"x"])
                 links.append([self.e(s), self.e(t)])
                 if r.random() < 0.25:
                     links.append([self.e(s), self.e(t)])
@@ -241,12 +253,25 @@ class Gen(object):
                         ts.append(t)
                 data.append([enc(s), [enc(x) for x in ts]])
             o = {"op": k, "data": data, "yf": r.choice([1, 2, 50])}
+            if r.random() < 0.25:
+                o["targets_as"] = r.choice(["iter", "iter", "tuple"])
+            if data and r.random() < 0.08:
+                # the same source page listed twice, once as text and once as bytes
+                s0 = dec(data[0][0])
+                try:
+                    txt = "u:" + s0.decode(self.encoding)
+                    if txt != data[0][0]:
+                        data.append([txt, [enc(self.lru()) for _ in range(r.choice([1, 2]))] + ([enc(s0)] if r.random() < 0.3 else [])])
+                except UnicodeDecodeError:
+                    pass
             if r.random() < 0.3:
                 o["drive"] = "until_done"
             return o
         if k == "create_we" and self.many_ids:
             self.many_ids = False
             return {"op": "create_many", "base": enc(b"s:http|h:com|h:many|"), "count": r.choice([254, 255, 256, 257, 300])}
+        if k == "reopen" and self.prop in ("C12", "C11", "C06", "C04") and r.random() < 0.12:
+            return {"op": "reopen_older_release"}
         if k == "create_we" and self.prop == "C09" and r.random() < 0.06:
             # a webentity with many prefixes (tokens must carry prefix indexes of two digits)
             base = r.choice(self.pool)
@@ -319,7 +344,7 @@ class Gen(object):
                 # clear() without a rules argument: the trie is emptied, the in-RAM registry is kept
                 return {"op": "clear", "default": r.choice([None, None, "domain"]), "rules": None}
             self.rules = [(dec(a), n) for a, n in rules]
-            return {"op": "clear", "default": r.choice([None, None, "domain", "path1"]), "rules": rules}
+            return {"op": "clear", "default": r.choice([None, None, "domain", "path1", "empty", "never"]), "rules": rules}
         if k == "remove_rule":
             a = self.anchor()
             cands = [x for x, _ in self.rules]
